@@ -5,7 +5,7 @@
 From Coq Require Import ZArith List Bool Lia.
 Require Import LdkV.Crypto.Bytes LdkV.Crypto.Sha256 LdkV.Crypto.Hmac LdkV.Crypto.ChaCha20.
 Require Import LdkV.Model.Sphinx LdkV.Model.OnionFail LdkV.Model.SphinxInst.
-Require Import LdkV.Proofs.C14 LdkV.Proofs.C14Fail.
+Require Import LdkV.Proofs.C14 LdkV.Proofs.C14Fail LdkV.Proofs.C14Hold.
 Import ListNotations.
 Open Scope nat_scope.
 
@@ -74,3 +74,11 @@ Theorem ldk_failure_attributed before ki after code d hold_i :
 Proof.
   apply (failure_attributed ks_chacha hmac_sha256 ks_chacha_length hmac_sha256_length).
 Qed.
+
+Theorem ldk_hold_times_fulfill (hops : list (fkeys * Z)) :
+  hops <> [] ->
+  Forall (fun kh => (0 <= snd kh < 2 ^ 32)%Z) hops ->
+  exists E : attribution,
+    fulfill_at_sender ks_chacha hmac_sha256 hops = Some E /\
+    i_decode_fulfill (map fst hops) E = firstn MAX_HOPS (map snd hops).
+Proof. apply (hold_times_fulfill ks_chacha hmac_sha256 ks_chacha_length hmac_sha256_length). Qed.
